@@ -463,7 +463,7 @@ gentl_api!(
 );
 
 gentl_api!(
-    pub fn GCGetLastError(
+    no_save pub fn GCGetLastError(
         piErrorCode: *mut GC_ERROR,
         sErrorText: *mut libc::c_char,
         piSize: *mut libc::size_t,
